@@ -121,6 +121,16 @@ def cases(tier, seed):
                     'verbose': rng.choice([2, 2, 3, 1]),
                     'yseed': rng.randrange(1 << 30),
                     'wseed': rng.randrange(1 << 30)})
+    # a layer whose test leaves a helper process behind that keeps the
+    # child's stderr open for a while after the child itself has gone
+    for _ in range(2 if tier == 'quick' else 8):
+        idx += 1
+        out.append({'idx': idx, 'helper': True, 'k': 2, 'N': 2,
+                    'perm': [1, 0], 'hold': 'none',
+                    'verbose': rng.choice([0, 1, 2]),
+                    'linger': rng.choice([12, 14]),
+                    'yseed': rng.randrange(1 << 30),
+                    'wseed': rng.randrange(1 << 30)})
     rng.shuffle(out)
     return out
 
@@ -191,9 +201,69 @@ def run_chatty(case):
                        'long_layer_alive_for_s': round(left, 1)}}
 
 
+def run_helper(case):
+    """The report of a layer subprocess arrives when its stderr ends -
+    which is when the last process holding that pipe has gone.  However
+    long that takes, the -j run must equal the sequential one."""
+    import common
+    import gen
+    import vworld
+    rng = random.Random(case['wseed'])
+    prefix = 'vwj%d' % case['idx']
+    layers = [{'name': 'L%d' % i, 'kind': 'class', 'bases': [],
+               'hooks': {'setUp': 'ok', 'tearDown': 'ok'}} for i in range(2)]
+    tbl = {'L0': [{'name': 'test_0', 'kind': 'pass', 'actions': [
+        {'ph': 'body', 'do': 'spawn_helper', 's': case['linger']}]},
+        {'name': 'test_1', 'kind': rng.choice(['fail', 'error'])},
+        {'name': 'test_2', 'kind': 'pass'}],
+        'L1': [{'name': 'test_0', 'kind': 'pass'},
+               {'name': 'test_1', 'kind': rng.choice(['pass', 'fail'])}]}
+    spec = gen.simple_world(prefix, layers, tbl)
+    counters = {'lingering_helper_runs': 1}
+    viol = []
+    root = vworld.materialise(spec)
+    try:
+        ws = common.run_world(spec, None, {'verbose': 1}, root=root)
+        wp = common.run_world(spec, None, {'verbose': case['verbose'],
+                                           'processes': 2}, root=root,
+                              timeout=180)
+    finally:
+        vworld.destroy(root)
+    if ws.raised is not None or wp.raised is not None:
+        return {'viol': [{'rule': 'parallel-run-aborted',
+                          'mech': 'run-raised', 'detail': {
+                              'tb': ((wp.raised_tb or ws.raised_tb) or
+                                     '')[-600:]}}],
+                'evals': 1, 'counters': counters}
+    if not any(e['k'] == 'helper.spawned' for e in wp.events):
+        return {'inconclusive': 'helper was not started',
+                'counters': counters}
+    counters['lingering_helper_judged'] = 1
+    d = {'linger_s': case['linger'], 'verbose': case['verbose']}
+    if wp.verdict != ws.verdict:
+        viol.append({'rule': 'verdict-differs-from-sequential',
+                     'mech': 'par-verdict',
+                     'detail': dict(d, seq=ws.verdict, par=wp.verdict)})
+    st, pt = ws.info['total'], wp.info['total']
+    if st is not None and pt is not None and st != pt:
+        viol.append({'rule': 'totals-differ-from-sequential',
+                     'mech': 'par-totals', 'detail': dict(d, seq=st, par=pt,
+                                                          out=wp.out[-500:])})
+    if common.ran_counts(wp.events, 'test.setUp') != \
+            common.ran_counts(ws.events, 'test.setUp'):
+        viol.append({'rule': 'executed-multiset-differs-from-sequential',
+                     'mech': 'par-executed', 'detail': d})
+    return {'viol': viol, 'evals': 1, 'counters': counters,
+            'sig': ['helper', case['verbose'], case['linger']],
+            'sample': {'lingering_helper_s': case['linger'],
+                       'totals': pt}}
+
+
 def run_case(case):
     if case.get('chatty'):
         return run_chatty(case)
+    if case.get('helper'):
+        return run_helper(case)
     import common
     import gen
     import runcase
